@@ -1218,3 +1218,23 @@ PROPS["C12"]["level_note"] += (' ' + _FDL_OS + 'C12_oracle_sound_partial: the ru
 PROPS["C12"]["partial_gap"] += (' Oracle soundness: the rules sweep_bound, post_claim_scan_incomplete and the liveness rule gap_wait_never_ends are NOT yet '
     'covered; the reply rules are covered only for applications that send request telegrams (a response telegram with the own source address from an '
     'application would be taken for a status reply).')
+
+# ---- agent fa, follow-up: C06_lost_token_recovers_alone from every state (coq/Proofs/C06Recover.v) ----
+PROPS["C06"]["level_text"] = PROPS["C06"]["level_text"].replace(
+    'Retry and removal of a silent successor are C11_retry_discipline.',
+    'C06_lost_token_recovers_alone (FULL single-station recovery, Proofs/C06Recover.v): a lone online station on a silent bus (receive buffer empty in '
+    'every poll, PHY busy at most while the station itself predicts the end of its own transmission), from EVERY state satisfying the representation '
+    'invariant Rep of C05 - PassToken / CheckTokenPass with a stale ring view, AwaitStatusResponse, AwaitDataResponse, UseToken, ClaimToken, a status '
+    'request pending, any total applications - under ANY poll schedule with gaps <= P: no poll panics and the station is in a token-holding state '
+    '(it has claimed or kept the token) after some poll at or before recover_bound = max(t1, L + Tw + P) + k * (Ttx + Tw + P), where t1 is the first '
+    'poll, L the last recorded bus activity, and for the idle states Tw = token-lost time-out of TS, Ttx = 6-byte telegram, k <= 2; for the other '
+    'states Tw = Tslot, Ttx = token telegram, k <= 3 * (LAS entries other than TS) + 5 <= 3 * 128 + 5 (three passes per stale entry, the removal with '
+    'the third expiry; ranking over (stale entries, attempt); between two progress polls the station provably only waits). '
+    'C06_lost_token_recovers_alone_by / C06_recover_bound_explicit / C06_recover_example give the "schedule long enough" form, a closed form and a '
+    'computed instance. Retry and removal of a silent successor are C11_retry_discipline.')
+PROPS["C06"]["partial_gap"] = PROPS["C06"]["partial_gap"].replace(
+    ' Also open in the single-station half: C06_lost_token_recovers_alone for the states PassToken / CheckTokenPass (working off a stale ring view: each '
+    'step is described by C11_retry_discipline, the bound over the whole LAS is missing) and with a status request pending.',
+    ' The single-station half is complete: C06_lost_token_recovers_alone covers every Rep state; its only side condition is that a station that has '
+    'recorded no bus activity at all is in state Offline (true of every reachable state: invariant ti_some of Proofs/FdlOracleSound3.v), and "silent" '
+    'means an empty receive buffer in every poll (stale bytes in the buffer are garbage / telegrams, covered by the one-step theorems only).')
